@@ -13,7 +13,6 @@
 #include <string.h>
 #include <sys/stat.h>
 #include <sys/uio.h>
-#include "common/iovector.cpp"
 #include "fs/xfile.cpp"
 using namespace photon::fs;
 
@@ -124,6 +123,12 @@ NOINL void* verif_c16_new(uint64_t n)
 }
 NOINL void verif_c16_delete(void* p) { CHECK(p == nullptr, "harness: no table is released during the operations"); }
 }
+#ifdef VERIF_NATIVE_CPP
+// native build of the same harness (translation validation / counterexample replay): same stand-ins
+void* operator new(size_t n) { return verif_c16_new(n); }
+void operator delete(void* p) noexcept { verif_c16_delete(p); }
+void operator delete(void* p, size_t) noexcept { verif_c16_delete(p); }
+#endif
 
 // reference: flat array of the composite size
 static uint8_t REF[TOTMAX]; static uint64_t TOTAL;
